@@ -68,6 +68,8 @@ def plan(tier, seed):
     for i in range(3):
         shards.append({'name': 'ed_%d' % i, 'kind': 'ed', 'configs': cfgs[i::3],
                        'nb': 300 if tier == 'quick' else 3000, 'seed': seed * 1000 + 44 + i})
+    shards.append({'name': 'rq', 'kind': 'rq', 'maxlen': 5 if tier == 'quick' else 7,
+                   'thresholds': [1.0, 0.5, 0.34] if tier == 'quick' else [1.0, 0.8, 0.67, 0.5, 0.34, 0.25]})
     shards.append({'name': 'ar', 'kind': 'ar', 'S': 4 if tier == 'quick' else 5})
     sizes = [300, 33000, 66000] if tier == 'quick' else [260, 300, 32770, 40000, 65540, 70000, 140000]
     shards.append({'name': 'huge', 'kind': 'huge', 'sizes': sizes})
@@ -305,6 +307,24 @@ def run_case(case, rec, ssj=None, cache=None):
         check_filter(ssj, base, {'kind': 'OverlapFilter', 'overlap_size': k, 'comp_op': '>='}, req,
                      view, rec, case)
         return {'required': len(req)}
+    if g == 'rq':
+        # every string over a two-letter alphabet under set-mode q-gram tokenizers: values such as
+        # 'aaa' (one distinct 2-gram) have far fewer tokens than their length suggests
+        q, pad, m, t = case['q'], case['padding'], case['measure'], case['threshold']
+        ckey = ('rq', q, pad, case.get('maxlen', 5))
+        if ckey not in cache:
+            strs = c03.universe('ab', case.get('maxlen', 5))
+            L = T.table_spec(['id', 's'], [[i, s_] for i, s_ in enumerate(strs)], dtypes={'s': 'object'})
+            R = T.table_spec(['id', 's'], [[i, s_] for i, s_ in enumerate(strs)], dtypes={'s': 'object'})
+            base = base_call(L, R, {'kind': 'qgram', 'q': q, 'padding': pad, 'return_set': True})
+            cache[ckey] = (base, oracle.TableView(dict(base)))
+        base, view = cache[ckey]
+        req = required_pairs(view, m, t)
+        for kind in SAFE_FILTERS:
+            apis = ('tables', 'pair', 'candset') if kind not in ('SuffixFilter',) else ('pair', 'candset')
+            check_filter(ssj, base, {'kind': kind, 'measure': m, 'threshold': t}, req, view, rec, case,
+                         apis=apis, pair_cap=1500, classify=classify)
+        return {'required': len(req)}
     if g == 'ed_u':
         cfg, k = case['cfg'], case['k']
         strs = c03.universe(cfg['alpha'], cfg['maxlen'])
@@ -439,6 +459,17 @@ def run_shard(shard, rec):
                     rec.count('required', st['required'])
                     rec.case(sig=('ov_q', q, pad, size), nontrivial=st['required'] > 0, n=5)
         rec.sample({'workload': 'OV', 'sizes': [1, 2, 3, 4, 5], 'N': shard['N']}, limit=1)
+    elif kind == 'rq':
+        for (q, pad) in ((2, False), (3, False), (2, True)):
+            for m in RATIO3:
+                for t in shard['thresholds']:
+                    case = {'gen': 'rq', 'q': q, 'padding': pad, 'measure': m, 'threshold': t,
+                            'maxlen': shard['maxlen']}
+                    st = run_case(case, rec, ssj, cache)
+                    rec.count('required', st['required'])
+                    rec.case(sig=('rq', q, pad, m, t), nontrivial=st['required'] > 0, n=4)
+        rec.sample({'workload': 'RQ', 'note': 'all strings over {a,b} up to the given length under set-mode '
+                    'q-gram tokenizers, ratio measures', 'maxlen': shard['maxlen']}, limit=1)
     elif kind == 'ed':
         for cfg in shard['configs']:
             for k in cfg['ks']:
